@@ -71,7 +71,7 @@ func (p CCPart) ClientCredentialsTokenRequest(_ context.Context, clientID string
 
 type TEPart struct{ S *Store }
 
-func (p TEPart) ValidateTokenExchangeRequest(_ context.Context, r op.TokenExchangeRequest) error {
+func (p TEPart) ValidateTokenExchangeRequest(ctx context.Context, r op.TokenExchangeRequest) error {
 	s := p.S
 	if err := s.enter("ValidateTokenExchangeRequest", r.GetClientID(), r.GetExchangeSubject()); err != nil {
 		return err
@@ -97,6 +97,7 @@ func (p TEPart) ValidateTokenExchangeRequest(_ context.Context, r op.TokenExchan
 
 	s.mu.Lock()
 	defer s.mu.Unlock()
+	tenant := s.tenant(ctx)
 	client, ok := s.origin[r.GetExchangeSubjectTokenIDOrToken()]
 	if !ok { // not a token of this store (id_token, third party token): judge by the requesting client
 		client = r.GetClientID()
@@ -104,20 +105,20 @@ func (p TEPart) ValidateTokenExchangeRequest(_ context.Context, r op.TokenExchan
 	// policy of the reference storage: an ACCESS token presented as subject or actor token must still be
 	// live (known, not expired, not revoked) - the framework cannot know this for opaque tokens
 	if r.GetExchangeSubjectTokenType() == oidc.AccessTokenType {
-		if _, err := s.liveToken(r.GetExchangeSubjectTokenIDOrToken()); err != nil {
+		if _, err := s.liveToken(tenant, r.GetExchangeSubjectTokenIDOrToken()); err != nil {
 			return oidc.ErrInvalidRequest().WithDescription("subject token is not live")
 		}
 	}
 	if r.GetExchangeActorTokenType() == oidc.AccessTokenType && (r.GetExchangeActorTokenIDOrToken() != "" || r.GetExchangeActor() != "") {
 		// (an actor was resolved - possibly with an empty token id, e.g. a JWT without jti: unknown to the store, hence not live)
-		if _, err := s.liveToken(r.GetExchangeActorTokenIDOrToken()); err != nil {
+		if _, err := s.liveToken(tenant, r.GetExchangeActorTokenIDOrToken()); err != nil {
 			return oidc.ErrInvalidRequest().WithDescription("actor token is not live")
 		}
 	}
 	switch {
 	case r.GetExchangeSubject() == BlockedUser, r.GetSubject() == BlockedUser:
 		return oidc.ErrInvalidRequest().WithDescription("subject is blocked")
-	case r.GetExchangeSubjectTokenType() == oidc.IDTokenType && slices.Contains(s.Terminated, [2]string{r.GetExchangeSubject(), client}):
+	case r.GetExchangeSubjectTokenType() == oidc.IDTokenType && s.sessionTerminated(tenant, r.GetExchangeSubject(), client):
 		// ID tokens are stateless: the storage vetoes hints of a session it has terminated
 		return oidc.ErrInvalidRequest().WithDescription("session of the subject token was terminated")
 	}
@@ -203,9 +204,10 @@ type DevicePart struct{ S *Store }
 type DeviceEntry struct {
 	Label, DeviceCode, UserCode string // Label is "dev1", "dev2", ... (the codes are random)
 	State                       *op.DeviceAuthorizationState
+	Tenant                      string // the issuer the authorization was requested under ("" unless Store.MultiTenant)
 }
 
-func (p DevicePart) StoreDeviceAuthorization(_ context.Context, clientID, deviceCode, userCode string, expires time.Time, scopes []string) error {
+func (p DevicePart) StoreDeviceAuthorization(ctx context.Context, clientID, deviceCode, userCode string, expires time.Time, scopes []string) error {
 	s := p.S
 	s.mu.Lock()
 	s.LastDeviceAttempt = [2]string{deviceCode, userCode} // observation only: what the framework drew, also when the call fails
@@ -224,7 +226,8 @@ func (p DevicePart) StoreDeviceAuthorization(_ context.Context, clientID, device
 	s.nDev++
 	s.devices[deviceCode] = &DeviceEntry{
 		Label: fmt.Sprintf("dev%d", s.nDev), DeviceCode: deviceCode, UserCode: userCode,
-		State: &op.DeviceAuthorizationState{ClientID: clientID, Scopes: slices.Clone(scopes), Expires: expires},
+		State:  &op.DeviceAuthorizationState{ClientID: clientID, Scopes: slices.Clone(scopes), Expires: expires},
+		Tenant: s.tenant(ctx),
 	}
 	s.userCodes[userCode] = deviceCode
 	return nil
@@ -241,7 +244,7 @@ func (p DevicePart) GetDeviceAuthorizatonState(ctx context.Context, clientID, de
 	s.mu.Lock()
 	defer s.mu.Unlock()
 	e, ok := s.devices[deviceCode]
-	if !ok || e.State.ClientID != clientID {
+	if !ok || e.State.ClientID != clientID || e.Tenant != s.tenant(ctx) {
 		return nil, errors.New("device code not found for client")
 	}
 	return e.State, nil
@@ -312,14 +315,14 @@ func (s *Store) Devices() map[string]*DeviceEntry {
 
 type TermFromReqPart struct{ S *Store }
 
-func (p TermFromReqPart) TerminateSessionFromRequest(_ context.Context, r *op.EndSessionRequest) (string, error) {
+func (p TermFromReqPart) TerminateSessionFromRequest(ctx context.Context, r *op.EndSessionRequest) (string, error) {
 	s := p.S
 	if err := s.enter("TerminateSessionFromRequest", r.UserID, r.ClientID); err != nil {
 		return "", err
 	}
 	s.mu.Lock()
 	defer s.mu.Unlock()
-	s.terminate(r.UserID, r.ClientID)
+	s.terminate(s.tenant(ctx), r.UserID, r.ClientID)
 	return r.RedirectURI, nil
 }
 
